@@ -81,6 +81,26 @@ Theorem rsrc_walk_bound_reached : forall e,
 Proof. exact CapsProofs.rsrc_examined_reached. Qed.
 Print Assumptions rsrc_walk_bound_reached.
 
+(* ---------------------------------------------------------------- determinism, structural part *)
+(* no module source iterates over a hash container (the containers found are
+   listed in Gen/ModCaps.v: they are only inserted into, looked up and tested
+   for membership), so no output list can inherit an unspecified iteration
+   order; protobuf map fields (pe.version_info) are compared as maps.  This is a
+   source scan, not a proof about the parsers; equality of repeated
+   invocations is tested by K. *)
+Theorem no_hash_order_in_module_outputs : module_hash_iteration_sites = [].
+Proof. reflexivity. Qed.
+Print Assumptions no_hash_order_in_module_outputs.
+
+(* ---------------------------------------------------------------- macho export trie *)
+(* visited nodes are keyed by their offset (generated fact): the number of
+   nodes expanded, hence of exports, is at most the number of distinct offsets
+   inside the trie data, for DAGs, cycles and self references alike; if the key
+   becomes finer than the offset the statement selected is the explosion *)
+Theorem trie_walk_bounded : trie_statement trie_visited_key_is_offset.
+Proof. exact (CapsProofs.trie_statement_holds trie_visited_key_is_offset). Qed.
+Print Assumptions trie_walk_bounded.
+
 (* ---------------------------------------------------------------- LEB128 (utils/leb128.rs) *)
 (* the u32 shift counter cannot overflow, at most 10 bytes are consumed, the
    result is a u64 *)
